@@ -78,6 +78,12 @@ def corpus():
           # a sheared "grid" at map-projection magnitudes: each row within numpy.allclose's tolerance of the NEXT one, the last far from the first
           mk_make([[524288.0 + x + 2.0 * i for x in (0.0, 10.0, 20.0)] for i in range(6)], [[4194304.0 + 10.0 * i] * 3 for i in range(6)], [],
                   [[[float(3 * i + j) for j in range(3)] for i in range(6)]], ["a"], ("northing", "easting"), None, False, "bad-drift"),
+          # a LINE of points stored as 2-D arrays with a single row / a single column: a meshgrid only if the other coordinate is constant along it
+          mk_make([[1.0, 2.0, 4.0, 5.0]], [[10.0, 11.0, 12.0, 13.0]], [], [[[0.0, 1.0, 2.0, 3.0]]], ["a"], ("northing", "easting"), None, False, "not-meshgrid-line"),
+          mk_make([[1.0], [2.0], [4.0]], [[10.0], [20.0], [30.0]], [], [[[0.0], [1.0], [2.0]]], ["a"], ("northing", "easting"), None, False, "not-meshgrid-line"),
+          mk_make([[1.0, 2.0, 4.0, 5.0]], [[10.0, 10.0, 10.0, 10.0]], [], [[[0.0, 1.0, 2.0, 3.0]]], ["a"], ("northing", "easting"), None, True, "meshgrid-single-row"),
+          mk_make([[3.0], [3.0], [3.0]], [[10.0], [20.0], [30.0]], [], [[[0.0], [1.0], [2.0]]], ["a"], ("northing", "easting"), None, True, "meshgrid-single-column"),
+          {"fn": "to1d", "kind": "to1d-line", "args": [[[1.0, 2.0, 4.0]], [[10.0, 11.0, 12.0]], []], "op": f"to1d {C.enc([[1.0, 2.0, 4.0]])} {C.enc([[10.0, 11.0, 12.0]])} {C.enc([])}"},
           # a DataArray whose name is the integer 0 (a column label of a header-less table): it HAS a name
           mk_table(("y", "x"), e, n, [], [("n0", d)], "named-int", "en", "corpus-dataarray-named-0"),
           mk_table(("northing", "easting"), e, n, [("up", up)], [("n0", d)], "named-int", "ne", "corpus-dataarray-named-0")]
@@ -126,7 +132,19 @@ def generate(rng, tier):
         elif u < 0.8:
             cs.append({"fn": "from1d", "kind": "from1d", "args": [e, no], "op": f"from1d {C.enc(e)} {C.enc(no)}"})
         else:   # one inconsistency
-            k = rng.choice(["notmesh-e", "notmesh-n", "mixed", "names", "names-string", "exnames", "shape", "extrashape", "tiny-perturb", "drift", "drift"])
+            k = rng.choice(["notmesh-e", "notmesh-n", "mixed", "names", "names-string", "exnames", "shape", "extrashape", "tiny-perturb", "drift", "drift", "line"])
+            if k == "line":
+                # a profile of points handed over as (1, n) or (n, 1) arrays: not a grid unless the other coordinate stays put
+                m_ = rng.randint(2, 6)
+                xs_ = sorted(rng.sample(range(-40, 40), m_))
+                ys_ = [float(rng.randint(-20, 20)) + 0.5 * j for j in range(m_)]
+                if rng.random() < 0.3:
+                    ys_ = [ys_[0]] * m_      # (this one IS a single-row / single-column grid)
+                row = rng.random() < 0.5
+                wrap = (lambda v: [list(v)]) if row else (lambda v: [[x] for x in v])
+                E3, N3 = (wrap([float(x) for x in xs_]), wrap(ys_)) if row else (wrap(ys_), wrap([float(x) for x in xs_]))
+                cs.append(mk_make(E3, N3, [], [wrap([float(j) for j in range(m_)])], ["a"], dims, None, rng.random() < 0.5, "line-2d"))
+                continue
             E2, N2, e2, n2, data2, names2, extras2, exn2 = E, N, e, no, data, names, extras, exnames
             two_d = True
             if k == "notmesh-e" and nn >= 2:
@@ -336,6 +354,9 @@ def oracle(case, io):
         return None
     if fn == "to1d":
         E, N, extras = a
+        is_mesh = all(list(r) == list(E[0]) for r in E) and all(all(v == r[0] for v in r) for r in N)
+        if not is_mesh:      # (clearly not one: the corpus' lines of points; near-meshgrids are not generated for this call)
+            return None if C.is_err(io) and io[1] == "ValueError" else "meshgrid_to_1d accepted arrays that are not a meshgrid"
         if C.is_err(io):
             return "meshgrid_to_1d rejected a meshgrid: " + io[1]
         if io != [E[0], [r[0] for r in N]]:
